@@ -1,6 +1,6 @@
 #!/bin/bash
 # like seed_table.sh but on scratch copies of /repo (never touches /repo), J seeds at a time
-cd /verif
+cd /verif; export FPV_EXTRACT_SLOTS=${FPV_EXTRACT_SLOTS:-8}
 J=${1:-6}
 one() {
   d=$1; id=$(basename $d); pid=$(python3 -c "import json;print(json.load(open('$d/meta.json'))['property'])")
